@@ -87,6 +87,12 @@ def gen(rng, k, sms):
         if inp == 'ndarray':
             call['func'] = 'task_np'
             call['init'] = call['exit'] = False
+        if rng.random() < 0.25:
+            # tasks submitted through apply_async count as well
+            nb = rng.choice([1, 3, 6])
+            call = {'kind': 'apply_batch', 'jobs': [{'id': i, 'args': [call['base'] + i], 'cbs': [False, False]} for i in range(nb)],
+                    'get_timeout': 20, 'no_join': pool['keep_alive'], 'want_insights': True, 'base': call['base'], 'n': nb, 'input': 'apply',
+                    'params': {}}
         calls.append(call)
         if rng.random() < 0.2:
             calls.append({'kind': 'setter', 'name': 'set_keep_alive', 'args': [rng.random() < 0.5]})
@@ -109,7 +115,7 @@ def oracle(rec):
                 continue
             if e.get('m') == 'init_comms':
                 pending = True
-            elif e.get('m') == 'add_task' and e.get('what') == 'chunk' and e.get('job') is not None and e['job'] >= 0 and e['job'] not in seen:
+            elif e.get('m') == 'add_task' and e.get('what') in ('chunk', 'tuple') and e.get('job') is not None and e['job'] >= 0 and e['job'] not in seen:
                 seen.add(e['job'])
                 fresh.append(pending)
                 pending = False
@@ -120,6 +126,8 @@ def oracle(rec):
             continue
         if o.get('outcome') != 'ok':
             return f"call base={c['base']} raised {o['exc']['type']}: {o['exc']['args'][:100]}"
+        if c['kind'] == 'apply_batch' and any(v[0] != 'ok' for v in o.get('value', [])):
+            return f"apply batch base={c['base']}: {str(o.get('value'))[:120]}"
         ins = o.get('insights')
         if not sc['pool']['enable_insights']:
             if ins != {}:
@@ -130,10 +138,10 @@ def oracle(rec):
         else:
             ran = sum(1 for e in task_events if e.get('args') and e['args'][1] and isinstance(e['args'][1][0], int)
                       and c['base'] <= e['args'][1][0] < c['base'] + 1000)
-        if di < len(fresh):
-            if fresh[di]:
-                acc = 0
-            di += 1
+        njobs_of_call = len(c['jobs']) if c['kind'] == 'apply_batch' else (1 if ran else 0)
+        if any(fresh[di:di + njobs_of_call]):
+            acc = 0
+        di += njobs_of_call
         acc += ran
         if ins is None:
             return f"call base={c['base']}: get_insights() failed: {o.get('insights_error')}"
